@@ -304,7 +304,7 @@ def severable_digests(ctx):
         R.check("C01-D3 no severable member skipped", n in handled, n, mod=fi.module, node=fi.node, function=fq,
                 expected=f"{n} is in the list iterated by update_severable_digests", found=f"handled: {sorted(handled)}", key_extra=n)
     R.rule("C01-D2b severed member digest", 4 * len(sev), "per member: tested, hashed (wrapped, from the envelope), algorithm and result all belong to that member")
-    R.rule("C01-D4 unconditional overwrite", len(sev), "the store is guarded only by 'manifest references the member by digest' (and presence in the envelope)")
+    R.rule("C01-D4 unconditional overwrite", 2 * len(sev), "the store is guarded only by 'manifest references the member by digest' (and presence in the envelope)")
     for n, lst in sorted(handled.items()):
         for e, guards, path in lst:
             names = [key_name(k) for k in path]
@@ -341,6 +341,27 @@ def severable_digests(ctx):
                         allowed, why = False, "the guard reads the previous digest bytes"
             R.check("C01-D4 unconditional overwrite", allowed, inst, mod=fi.module, node=e.node, function=fq,
                     expected="store not control-dependent on the supplied digest", found=why, key_extra=n + "g")
+            # D4b: the refresh happens exactly when the manifest names the member and holds it in digest form: both tests positive
+            conj = []
+            for g, pol in guards:
+                todo = [(g, pol)]
+                while todo:
+                    x, p_ = todo.pop()
+                    if isinstance(x, App) and x.op == "and" and p_:
+                        todo += [(a_, True) for a_ in x.args]
+                    elif isinstance(x, App) and x.op == "not" and len(x.args) == 1:
+                        todo.append((x.args[0], not p_))
+                    else:
+                        conj.append((x, p_))
+            member_in = [(x, p_) for x, p_ in conj if isinstance(x, App) and x.op in ("in", "not in") and isinstance(x.args[0], Ref)
+                         and key_name(x.args[0]) == n]
+            digest_form = [(x, p_) for x, p_ in conj if isinstance(x, App) and x.op in ("hasattr", "call:hasattr") and Const("SuitDigest") in x.args]
+            pos_in = any((x.op == "in") == p_ for x, p_ in member_in)
+            neg_in = any((x.op == "in") != p_ for x, p_ in member_in)
+            R.check("C01-D4 unconditional overwrite", pos_in and not neg_in and bool(digest_form) and all(p_ for x, p_ in digest_form),
+                    inst + ": refreshed when the manifest holds the member in digest form", mod=fi.module, node=e.node, function=fq,
+                    expected=f"{n} in manifest and hasattr(<its value>, 'SuitDigest')",
+                    found=f"membership tests {[(x.op, p_) for x, p_ in member_in]}, digest-form tests {[p_ for x, p_ in digest_form]}", key_extra=n + "p")
     digest_positions(ctx, "C01-D2b severed member digest")
 
 
